@@ -33,10 +33,12 @@ pub fn render_text(lines: &[String], crlf: bool, final_newline: bool) -> String 
 }
 
 pub fn project_test(tc: &TestCase) -> Value {
-    let cfg = match tc.config.timeout {
-        None => "".to_string(),
-        Some(d) if d == Duration::from_secs(3) => "{timeout: 3s}".to_string(),
-        Some(_) => "other".to_string(),
+    // the inline configurations the spec uses, mapped back to their text
+    let cfg = match (tc.config.timeout, tc.config.environment.get("A")) {
+        (None, None) => "".to_string(),
+        (Some(d), None) if d == Duration::from_secs(3) => "{timeout: 3s}".to_string(),
+        (None, Some(v)) if v == "x  y" && tc.config.environment.len() == 1 => "{environment: {A: \"x  y\"}}".to_string(),
+        _ => "other".to_string(),
     };
     json!({
         "cmd": tc.shell_expression.split('\n').collect::<Vec<_>>(),
